@@ -21,8 +21,8 @@ type callSite struct {
 
 type SharedInfo struct {
 	p           *Program
-	SharedTypes map[string]bool            // typeKey of struct types instantiated by initialisers / globals
-	sharedNamed []*types.Named             // same, as types
+	SharedTypes map[string]bool              // typeKey of struct types instantiated by initialisers / globals
+	sharedNamed []*types.Named               // same, as types
 	callers     map[*ssa.Function][]callSite // reverse call graph restricted to request-path call sites
 	closures    map[*ssa.Function][]*ssa.MakeClosure
 	memo        map[ssa.Value]*sharedVerdict
